@@ -91,6 +91,14 @@ namespace cs
     static CompReg r_fb1n("fallback_C_N", [](Env& e) -> Comp* {
         return named(new RawComp<Fb1n>(LeafC(&e.leaf[0]), LeafN(&e.leaf[1])), "fallback_C_N");
     });
+    // type-erased references as the default: to a node-only composable leaf and to a full one
+    using FbAny = fm::fallback_allocator<fm::any_allocator_reference, LeafA>;
+    static CompReg r_fbanyc("fallback_anyC_A", [](Env& e) -> Comp* {
+        return named(new RawComp<FbAny>(fm::any_allocator_reference(e.lc[0]), LeafA(&e.leaf[1])), "fallback_anyC_A");
+    });
+    static CompReg r_fbanyac("fallback_anyAC_A", [](Env& e) -> Comp* {
+        return named(new RawComp<FbAny>(fm::any_allocator_reference(e.lac[0]), LeafA(&e.leaf[1])), "fallback_anyAC_A");
+    });
     using Fb2 = fm::fallback_allocator<Fb1c, LeafA>;
     static CompReg r_fb2("fallback_fallback_AC_AC__A", [](Env& e) -> Comp* {
         return named(new RawComp<Fb2>(Fb1c(LeafAC(&e.leaf[0]), LeafAC(&e.leaf[1])), LeafA(&e.leaf[2])),
